@@ -149,6 +149,7 @@ def run_merge(case, order, mon, ctx):
     if case['cls'] in ('per_line_charsets', 'merge_of_merges'):
         mon.count('per_line_charset_merges')
     merged = layouts[0]
+    mon.observe('merged transcriptions', [(l.id, l.transcription, None if l.transcription_confidence is None else round(float(l.transcription_confidence), 12)) for l in merged.lines_iterator()])
     if [(r.id, [l.id for l in r.lines]) for r in merged.regions] != [(a, b) for a, b, _ in region_ids] or any(not np.array_equal(r.polygon, p) for r, (_, _, p) in zip(merged.regions, region_ids)):
         mon.violation('ids-and-geometry-unaltered', {'order': order, 'what': 'regions'})
     out = list(merged.lines_iterator())
